@@ -557,7 +557,12 @@ def main(tier):
             for fo in forders:
                 mtasks.append((nv, nf, vo, fo, False))
                 for na in range(1, nv + 1):
-                    if tier == 'thorough' or (vo == vorders[0] and fo == forders[0]) or na == 1:
+                    # async splits: all of them for the first order pair, one async validator otherwise;
+                    # the 3x3 shape (19 683 report patterns per order) only with the first order pair
+                    first = (vo == vorders[0] and fo == forders[0])
+                    if (nv, nf) == (3, 3) and not first:
+                        continue
+                    if first or na == 1:
                         mtasks.append((nv, nf, vo, fo, False, na))
     results += pmap(run_merge, mtasks)
     results += pmap(run_severity, [(L, False) for L in range(-1, b['sev_max'] + 1)])
